@@ -22,6 +22,9 @@ class _OneCpu:
         return getattr(multiprocessing, name)
 
 
+SOLVER_WALL_LIMIT = 25
+
+
 def install_seams():
     global _SEAMS
     if _SEAMS:
@@ -44,9 +47,18 @@ def install_seams():
             try:
                 self.Params.Threads = 1
                 self.Params.Seed = 1
+                # safety net in *real* seconds: the policies' own time limits read the fake wall clock and
+                # never fire, and a signal raised inside a solver callback is swallowed by the solver
+                self.Params.TimeLimit = SOLVER_WALL_LIMIT
             except Exception:
                 pass
             r = orig(self, *a, **kw)
+            try:
+                hit = self.Status == gp.GRB.TIME_LIMIT
+            except Exception:
+                hit = False
+            if hit:
+                raise RuntimeError("harness solver wall-clock limit reached (inconclusive run)")
             hook = SOLVER_CHAOS.get("hook")
             if hook is not None:
                 hook(self, orig)
